@@ -353,6 +353,14 @@ def _sumlist(xs):
 
 
 def dot(a, b):
+    r = _dot(a, b)
+    if T._CTX[0] is not None and getattr(T._CTX[0], 'let_products', True):
+        from . import lets as _lets
+        r = _lets.let('dot', r)
+    return r
+
+
+def _dot(a, b):
     a, b = asarray(a), asarray(b)
     if not isinstance(a, SArr) or not isinstance(b, SArr):
         return a * b
@@ -478,7 +486,12 @@ def qr(m):
         for j in range(3):
             if j >= i:
                 c.assume(T.Eq(QtQ[i, j], 1 if i == j else 0))
+            n0 = len(c.hyps)
             c.assume(T.Eq(QR[i, j], m[i, j]))
+            # read as a definition of M_ij (a symbol) in terms of Q and R: keeps the hypotheses triangular
+            mij = m[i, j]
+            if isinstance(mij, R) and len(c.hyps) == n0 + 1 and T.z3.is_const(mij.n) and mij.d is None:
+                c.hyp_main[c.hyps[-1].get_id()] = str(mij.n)
     c.notes.append('assumed contract: numpy.linalg.qr')
     return (Q, Rm)
 
